@@ -161,6 +161,10 @@ func (s *simSender) RequestBlock(_ context.Context, hash hotstuff.Hash) (*hotstu
 }
 
 func (w *World) fetch(nd *Node, hash hotstuff.Hash) (*hotstuff.Block, bool) {
+	if w.auditFetch {
+		b := w.reg.get(hash)
+		return b, b != nil
+	}
 	w.probe("fetch")
 	nd.sender.fetchCtr++
 	if !w.syncPhaseFor(nd) && w.plan.FetchFail > 0 &&
